@@ -73,7 +73,7 @@ def errorOf (o : Oracle) (kw : Kwargs) (c : Contract) : Option Raised :=
 
 /-- the resolved keyword arguments of a call -/
 def resolved (ck : Checker) (call : Call) : Kwargs :=
-  kwargsFromCall ck.paramNames ck.kwdefaults call.args call.kwargs
+  kwargsFromCall ck.paramNames ck.kwdefaults call.args call.kwargs ck.posOnly
 
 /-- The capture can be evaluated for this call and returns a value. -/
 def captureTotal (isAsync : Bool) (o : Oracle) (kw : Kwargs) (s : Snapshot) : Bool :=
